@@ -370,7 +370,7 @@ theorem stmts_hcol : ∀ v, some (.bnString 0 v) ∈ nodesOf stmts → ∀ k, v 
 /-- the hypotheses of `pipe_labels_injective` hold for `driverU`, `s0`, factory 0, `stmts` … -/
 example : Function.Injective driverU ∧ C14.Inv s0 ∧ 0 < s0.strfs.length ∧
     (∀ v, some (.bnString 0 v) ∈ nodesOf stmts → ∀ k, v ≠ driverU k) :=
-  ⟨C14.driverU_injective, s0_inv, by decide, stmts_hcol⟩
+  ⟨Proofs.C14.driverU_inj, s0_inv, by decide, stmts_hcol⟩
 
 /-- … and this is what the model (and the driver) computes: `_:x` keeps its label, the anonymous nodes get the
     first and second UUID of the process, consistently. -/
